@@ -12,7 +12,7 @@ oracle: THE KKT point: a working set guessed by a floating-point active-set meth
         guess does not certify); status must be 'converged' within 50*n iterations and ||x - x*|| <= tol/lambda_min.
         The logged capture decisions (hook H4) are judged directly: the captured variable must be the first to
         reach its bound.
-rates:  the open findings F-65/F-66/F-67 are instance classes on which the property is false; the check also bounds
+rates:  the open findings F-65/F-66/F-67/F-68 are instance classes on which the property is false; the check also bounds
         their observed RATE (a bad edit that merely makes them more frequent is a violation).
 """
 import os, json, collections
@@ -23,11 +23,11 @@ LEVEL = "other"
 NS = "Adept.Minimizer."
 REQUIRED = ["C19_kkt_unique", "C19_no_false_capture", "C19_no_false_capture_ls", "C19_converged_is_kkt"]
 # observed on the repaired tree over 6000 instances: F-65 6.5% of the Levenberg-family cases, F-67 1.0%, F-66 0.06% of
-# the first-order cases; the gates sit at roughly twice / five times those rates (plus slack for small samples)
+# the first-order cases, F-68 0.03%; the gates sit at roughly twice / five times those rates (plus slack for small samples)
 RATE_LIMIT = {"lm-converged-at-non-kkt-point-held-at-bound": 0.13, "lm-stuck-free-variable-on-face": 0.035,
-              "first-order-budget-exhausted": 0.012}
+              "first-order-budget-exhausted": 0.012, "line-search-stalled-next-to-face": 0.004}
 RATE_OF = {"lm-converged-at-non-kkt-point-held-at-bound": mc.SECOND_ORDER, "lm-stuck-free-variable-on-face": mc.SECOND_ORDER,
-           "first-order-budget-exhausted": mc.FIRST_ORDER}
+           "first-order-budget-exhausted": mc.FIRST_ORDER, "line-search-stalled-next-to-face": mc.FIRST_ORDER}
 
 
 def corner_rush(rng, algo):
